@@ -14,6 +14,7 @@ import IgrisModel.C01.Refine
 import IgrisModel.C01.Slist
 import IgrisModel.C01.More
 import IgrisModel.C01.Ext3
+import IgrisModel.C01.Ext4
 namespace Igris.C01
 
 /-- a history of the reference semantics -/
@@ -577,4 +578,279 @@ example : FirstHit ring3.next 0 0 2 ∧ FirstHit ring3.prev 0 0 2 := by
     rcases this with rfl | rfl <;> decide
 example : SRing twoSlists 0 [2] ∧ SRing twoSlists 1 [] :=
   ⟨⟨by decide, by simp only [Seg]; decide⟩, ⟨by decide, by simp only [Seg]; decide⟩⟩
+end Igris.C01
+
+namespace Igris.C01
+/-! ## EXTENSION 2: history theorems for slist and hlist, enabledness of the three reference
+semantics, `dlist_move_sorted` inside the operation language, the entry-level `_safe` loop, the
+`int` size counters (lemmas in SHist.lean, HHist.lean, Enabled.lean, Ext4.lean) -/
+
+/-! ### slist histories -/
+
+/-- the empty family is realised by every slist heap -/
+theorem slist_empty_ok (h : SHeap) : SFamOK h [] := ⟨by simp, List.Pairwise.nil⟩
+
+/-- one slist operation realises the reference operation on the family of lists -/
+theorem slist_step_refines {h : SHeap} {F F' : SFam} {op : SOp} (ok : SFamOK h F) (st : SStep F op F') :
+    SFamOK (sexec h op) F' := sstep_refines ok st
+
+/-- SLIST HISTORY THEOREM.  For every finite sequence of `slist_init`, `slist_add` / `add_first`
+(after a head or after any element), `slist_pop_first` (also on an empty list), `move_front` (of an
+element anywhere in the list, of a node in no list, of an empty list) and re-initialisation of a
+head (= clear) that the reference semantics admits, over any number of lists and nodes, the heap
+after the sequence realises the reference family: every list is a singly linked ring through its
+contents in order, different lists share no node. -/
+theorem slist_run_refines {h : SHeap} {F F' : SFam} {ops : List SOp} (ok : SFamOK h F) (r : SRun F ops F') :
+    SFamOK (srun h ops) F' := srun_refines ok r
+
+/-- on EVERY reachable state (any history from the empty family, on any initial heap) the queries
+agree with the reference: `slist_for_each` / the `igris::slist` iterators visit the contents in
+order, `slist_size`, `slist_in`, `slist_empty` / `empty()` agree, `slist_pop_first` returns the first
+element (NULL on an empty list) -/
+theorem slist_reachable_queries (h0 : SHeap) {ops : List SOp} {F : SFam} (r : SRun [] ops F)
+    {hd : Nat} {xs : List Nat} (hm : (hd, xs) ∈ F) (fuel : Nat) (hf : xs.length + 1 < fuel) :
+    slistToList (srun h0 ops) fuel hd = xs ∧ slistSize (srun h0 ops) fuel hd = xs.length ∧
+    (∀ x, slistIn (srun h0 ops) fuel hd x = true ↔ x ∈ xs) ∧ (slistEmpty (srun h0 ops) hd = true ↔ xs = []) ∧
+    (slistPopFirst (srun h0 ops) hd).2 = xs.head? := by
+  have ok := slist_run_refines (slist_empty_ok h0) r
+  have ring : SRing (srun h0 ops) hd xs := ok.ring _ hm
+  have q := slist_queries_agree _ hd xs ring fuel hf
+  refine ⟨slist_traversal _ hd xs ring fuel hf, q.1, q.2.1, q.2.2, ?_⟩
+  cases xs with
+  | nil => rw [slistPopFirst_empty _ hd ring]; rfl
+  | cons x xs => rw [(slistPopFirst_ring _ hd x xs ring).1]; rfl
+
+/-- ENABLEDNESS (slist): the calls the reference semantics admits are exactly those satisfying the
+decidable predicate `SAdmitted` (written on the family alone: init — node in no list or a head;
+add — the new node in no list or an empty list, the position a head or an element; pop_first — a
+head; move_front — an element of this list / a node of no list / an empty list, bound above the length) -/
+theorem slist_admitted_iff {F : SFam} (w : SFamWF F) (op : SOp) : SAdmitted F op ↔ ∃ F', SStep F op F' :=
+  ⟨step_of_sadmitted, fun ⟨_, st⟩ => sadmitted_of_step w st⟩
+
+/-- every reachable slist family is well-formed, so `slist_admitted_iff` applies on every reachable state -/
+theorem slist_reachable_wf (h0 : SHeap) {ops : List SOp} {F : SFam} (r : SRun [] ops F) : SFamWF F :=
+  (slist_run_refines (slist_empty_ok h0) r).wf
+
+-- non-vacuity: two lists, insertion at the head and after an element, move_front of an own element and
+-- of a node in no list, pop, re-initialisation of a non-empty head
+example : SRun [] [.init 0, .init 1, .add 2 0, .add 3 0, .add 4 3, .moveFront 10 2 0, .popFirst 0, .add 2 1,
+    .moveFront 10 5 1, .init 0, .popFirst 0] [(0, []), (1, [5, 2])] := by
+  refine .cons (.initFree (by simp [SFree])) ?_
+  refine .cons (.initFree (by decide)) ?_
+  refine .cons (.addFirst (hd := 0) (xs := []) (B := [(1, [])]) (.swap _ _ _) (by decide)) ?_
+  refine .cons (.addFirst (hd := 0) (xs := [2]) (B := [(1, [])]) (.refl _) (by decide)) ?_
+  refine .cons (.addAfter (hd := 0) (p := 3) (pre := []) (post := [2]) (B := [(1, [])]) (.refl _) (by decide)) ?_
+  refine .cons (.moveFrontOwn (hd := 0) (pre := [3, 4]) (post := []) (B := [(1, [])]) (.refl _) (by decide)) ?_
+  refine .cons (.pop (hd := 0) (x := 2) (xs := [3, 4]) (B := [(1, [])]) (.refl _)) ?_
+  refine .cons (.addFirst (hd := 1) (xs := []) (B := [(0, [3, 4])]) (.swap _ _ _) (by decide)) ?_
+  refine .cons (.moveFrontAbsent (hd := 1) (xs := [2]) (B := [(0, [3, 4])]) (.refl _) (by decide) (by decide)) ?_
+  refine .cons (.initHead (a := 0) (xs := [3, 4]) (B := [(1, [5, 2])]) (.swap _ _ _)) ?_
+  refine .cons (.popEmpty (hd := 0) (B := [(1, [5, 2])]) (.refl _)) ?_
+  exact .nil _
+example : SAdmitted [(0, [3, 4]), (1, [])] (.add 7 3) ∧ ¬ SAdmitted [(0, [3, 4]), (1, [])] (.add 4 1) ∧
+    ¬ SAdmitted [(0, [3, 4]), (1, [])] (.moveFront 10 4 1) ∧ SAdmitted [(0, [3, 4]), (1, [])] (.moveFront 10 4 0) := by
+  decide
+
+/-! ### hlist histories -/
+
+theorem hlist_empty_ok (h : HHeap) : HFamOK h ⟨[], []⟩ :=
+  ⟨by simp, List.Pairwise.nil, List.Pairwise.nil, by simp⟩
+
+theorem hlist_step_refines {h : HHeap} {F F' : HFam} {op : HOp} (ok : HFamOK h F) (st : HStep F op F') :
+    HFamOK (hexec h op) F' := hstep_refines ok st
+
+/-- HLIST HISTORY THEOREM.  For every finite sequence of `hlist_head_init` (new head or
+re-initialisation), `hlist_node_init`, `hlist_add_next` at ANY location (`&head->first` or `&p->next`
+of any element), `hlist_del` of an element or of an idle node, that the reference semantics admits,
+over any number of heads and nodes: every list is a chain from `head->first` to NULL through its
+contents in order in which every `pprev` is the location that points at its node; lists share no
+node; every idle node has `pprev == NULL`. -/
+theorem hlist_run_refines {h : HHeap} {F F' : HFam} {ops : List HOp} (ok : HFamOK h F) (r : HRun F ops F') :
+    HFamOK (hrun h ops) F' := hrun_refines ok r
+
+/-- on EVERY reachable state: `hlist_for_each` visits the contents in order; `hlist_for_each_entry`
+through a member at ANY offset visits their objects (node addresses non-NULL machine addresses, no
+object at address 0); every element's `pprev` points at the location that holds it -/
+theorem hlist_reachable_queries (h0 : HHeap) {ops : List HOp} {F : HFam} (r : HRun ⟨[], []⟩ ops F)
+    {l : Nat} {xs : List Nat} (hm : (l, xs) ∈ F.lists) (fuel : Nat) (hf : xs.length < fuel) :
+    hlistToList (hrun h0 ops) fuel l = xs ∧
+    (∀ off : Addr, (∀ y ∈ xs, HAddrOK off y) → hlistForEachEntry (hrun h0 ops) fuel l off = xs.map (entryOf off)) ∧
+    (∀ pre x post, xs = pre ++ x :: post →
+      (hrun h0 ops).pprev x = some (lastLoc (.headFirst l) pre) ∧
+      (hrun h0 ops).read (lastLoc (.headFirst l) pre) = some x) := by
+  have ok := hlist_run_refines (hlist_empty_ok h0) r
+  have hl : HList (hrun h0 ops) l xs := ok.list _ hm
+  refine ⟨hlist_traversal hl fuel hf, ?_, ?_⟩
+  · intro off ha
+    exact hwalkEntry_chain _ off xs (.headFirst l) fuel hl.chain ha hf
+  · intro pre x post e
+    subst e
+    obtain ⟨c1, c2, _⟩ := (HChain_append_cons _ pre (.headFirst l) x post none).mp hl.chain
+    exact ⟨c2, HChain_read_last _ pre _ _ c1⟩
+
+/-- ENABLEDNESS (hlist): the admitted calls are exactly those satisfying the decidable `HAdmitted`
+(head_init: always; node_init: the node is not linked; add_next: the node is not linked and the
+location belongs to a head of the family / to a linked node; del: the node is linked or idle —
+NOT a node that was deleted before and not re-initialised: its `pprev` is stale) -/
+theorem hlist_admitted_iff (F : HFam) (op : HOp) : HAdmitted F op ↔ ∃ F', HStep F op F' := hadmitted_iff F op
+
+/-- what `hlist_del` of an already deleted node does (why it is not admitted): the stale `pprev`
+still points at `head->first`, the second `hlist_del(1)` stores the stale `next` there — node 1 is
+back in the list although it was removed -/
+theorem hlist_double_del_witness :
+    let h0 : HHeap := ⟨fun _ => none, fun _ => none, fun _ => none⟩
+    let h1 := hlistDel (hlistAddNext (hlistAddNext (hlistHeadInit h0 9) 2 (.headFirst 9)) 1 (.headFirst 9)) 1
+    hlistToList h1 5 9 = [2] ∧ hlistToList (hlistDel (hlistDel h1 2) 1) 5 9 = [2] := by decide
+
+-- non-vacuity: two heads, push front, insert after the last element, delete first / last, delete an
+-- idle node, re-add a deleted node without node_init, re-initialise a non-empty head
+example : HRun ⟨[], []⟩ [.headInit 8, .headInit 9, .nodeInit 1, .addNext 1 (.headFirst 8), .addNext 2 (.nodeNext 1),
+    .addNext 3 (.headFirst 9), .del 2, .addNext 2 (.headFirst 8), .del 2, .nodeInit 2, .del 2, .headInit 9]
+    ⟨[(9, []), (8, [1])], [2]⟩ := by
+  refine .cons (.headInitNew (by simp)) ?_
+  refine .cons (.headInitNew (by decide)) ?_
+  refine .cons (.nodeInit (by decide)) ?_
+  refine .cons (.addFirst (l := 8) (xs := []) (B := [(9, [])]) (.swap _ _ _) (by decide)) ?_
+  refine .cons (.addAfter (l := 8) (p := 1) (pre := []) (post := []) (B := [(9, [])]) (.refl _) (by decide)) ?_
+  refine .cons (.addFirst (l := 9) (xs := []) (B := [(8, [1, 2])]) (.swap _ _ _) (by decide)) ?_
+  refine .cons (.del (n := 2) (l := 8) (pre := [1]) (post := []) (B := [(9, [3])]) (.swap _ _ _)) ?_
+  refine .cons (.addFirst (l := 8) (xs := [1]) (B := [(9, [3])]) (.refl _) (by decide)) ?_
+  refine .cons (.del (n := 2) (l := 8) (pre := []) (post := [1]) (B := [(9, [3])]) (.refl _)) ?_
+  refine .cons (.nodeInit (by decide)) ?_
+  refine .cons (.delIdle (by decide)) ?_
+  refine .cons (.headInit (l := 9) (xs := [3]) (B := [(8, [1])]) (.swap _ _ _)) ?_
+  exact .nil _
+
+/-! ### enabledness of the dlist reference semantics -/
+
+/-- ENABLEDNESS (C and C++ dlist).  On a well-formed family the calls `AStep` admits are exactly
+those satisfying the decidable predicate `Admitted`, which is written on the family alone:
+add / insert_instead / move_sorted want an entry that is in no ring or alone (Linux contract —
+the ONLY restriction on "any sequence"; see `add_linked_witness`), everything else (del, del_init,
+unlink, pop, every move incl. onto itself / a neighbour / another ring, init) wants nodes that are
+in rings, splice wants two different rings. -/
+theorem admitted_iff {A : Rings} (w : RingsWF A) (op : Op) : Admitted A op ↔ ∃ A', AStep A op A' :=
+  ⟨step_of_admitted, fun ⟨_, st⟩ => admitted_of_step w st⟩
+
+/-- every family a heap realises is well-formed: `admitted_iff` applies on every reachable state -/
+theorem reachable_wf {h : Heap} {A : Rings} (ok : RingsOK h A) : RingsWF A := ok.wf
+
+/-- PROGRESS: in a state that realises the family `A`, every `Admitted` call (what the harness
+generator checks op by op on its own reference state) has a successor family, and the heap after
+the real operation realises it — so the next call can be judged in the same way -/
+theorem admitted_step_ok {h : Heap} {A : Rings} {op : Op} (ok : RingsOK h A) (ad : Admitted A op) :
+    ∃ A', AStep A op A' ∧ RingsOK (exec h op) A' ∧ RingsWF A' := by
+  obtain ⟨A', st⟩ := step_of_admitted ad
+  exact ⟨A', st, step_refines ok st, (step_refines ok st).wf⟩
+
+-- `dlist_move_sorted` (any comparator) and re-initialisation of a non-empty head inside a history
+example : ARun [[0, 3, 7], [5], [4]] [.cmoveSorted (fun a b => decide (a < b)) 10 5 0, .cmoveSorted (fun _ _ => false) 10 9 0,
+    .cinit 0, .cmoveSorted (fun a b => decide (a < b)) 10 4 0] [[0, 4]] := by
+  refine .cons (.cmoveSorted (added := 5) (head := 0) (xs := [3, 7]) (B := [[4]]) (.perm (by decide)) (by decide)) ?_
+  refine .cons (.cmoveSortedFree (added := 9) (head := 0) (xs := [3, 5, 7]) (B := [[4]]) (.refl _) (by decide) (by decide)) ?_
+  refine .cons (.cinitRing (a := 0) (xs := [3, 5, 7, 9]) (B := [[4]]) (.refl _)) ?_
+  refine .cons (.cmoveSorted (added := 4) (head := 0) (xs := []) (B := []) (.perm (by decide)) (by decide)) ?_
+  exact .nil _
+example : Admitted [[0, 3, 7], [5]] (.cmove 3 3) ∧ Admitted [[0, 3, 7], [5]] (.caddNext 5 7) ∧
+    ¬ Admitted [[0, 3, 7], [5]] (.caddNext 3 0) ∧ ¬ Admitted [[0, 3, 7], [5]] (.cdel 9) ∧
+    Admitted [[0, 3, 7], [5]] (.caddPrev 9 5) := by decide
+
+/-! ### `dlist_for_each_entry_safe` at entry level -/
+
+/-- `dlist_for_each_entry_safe(pos, n, head, member)` with ANY body is `dlist_for_each_safe` on the
+member nodes with the same body (container_of applied to `pos` and `n`, `&pos->member != head` as the
+exit test), as long as the visited nodes are machine addresses -/
+theorem for_each_entry_safe_is_node_loop (bodyE : Heap → Addr → Heap) (off : Addr) (hd : Nat) (hhd : hd < 2 ^ 64)
+    (h : Heap) (fuel : Nat)
+    (hv : ∀ p ∈ (dlistForEachSafe (fun h p => bodyE h (entryOf off p)) h fuel hd).2, p < 2 ^ 64) :
+    dlistForEachEntrySafe bodyE h fuel (BitVec.ofNat 64 hd) off =
+      ((dlistForEachSafe (fun h p => bodyE h (entryOf off p)) h fuel hd).1,
+       (dlistForEachSafe (fun h p => bodyE h (entryOf off p)) h fuel hd).2.map (entryOf off)) :=
+  dlistForEachEntrySafe_sim bodyE _ off hd hhd (fun _ _ _ => rfl) h fuel hv
+
+/-- … hence the entry-level loop tolerates deletion of the current entry (`dlist_del_init(&pos->member)`
+for ANY predicate on the objects): every object is visited exactly once, in order; the kept ones
+keep their order, each deleted one is alone, other rings untouched -/
+theorem for_each_entry_safe_tolerates_deletion {h : Heap} {hd : Nat} {xs : List Nat} {B : Rings} (del : Addr → Bool)
+    (off : Addr) (ok : RingsOK h ((hd :: xs) :: B)) (hb : ∀ y ∈ hd :: xs, y < 2 ^ 64) (fuel : Nat) (hf : xs.length < fuel) :
+    let r := dlistForEachEntrySafe (fun h e => if del e then dlistDelInit h (mcastIn e off).toNat else h) h fuel
+      (BitVec.ofNat 64 hd) off
+    r.2 = xs.map (entryOf off) ∧
+    RingsOK r.1 ((hd :: xs.filter (fun x => !del (entryOf off x))) ::
+      ((xs.filter (fun x => del (entryOf off x))).map fun x => [x]) ++ B) := by
+  have node := for_each_safe_tolerates_deletion (fun x => del (entryOf off x)) ok fuel hf
+  have sim := dlistForEachEntrySafe_sim (fun h e => if del e then dlistDelInit h (mcastIn e off).toNat else h)
+    (fun h p => if del (entryOf off p) then dlistDelInit h p else h) off hd (hb hd (by simp))
+    (fun h p hp => by simp only [mcastIn_entryOf, ofNat_toNat_small hp]) h fuel
+    (by rw [node.1]; intro p hp; exact hb p (by simp [hp]))
+  simp only [sim, node.1]
+  exact ⟨trivial, node.2⟩
+
+/-! ### the `int` counters of `dlist_size`, `dlist_size_reversed`, `slist_size` -/
+
+/-- PRECONDITION of the `int`-valued size functions: on a list of at most INT_MAX = 2^31 - 1
+elements the returned `int` is the length (C++ `size()` counts in `size_t`: no precondition) -/
+theorem size_int_precondition {h : Heap} {A : Rings} {hd : Nat} {xs : List Nat} (ok : RingsOK h A)
+    (hm : (hd :: xs) ∈ A) (fuel : Nat) (hf : xs.length + 1 < fuel) (hlen : xs.length ≤ 2147483647) :
+    dlistSizeC h fuel hd = xs.length ∧ dlistSizeReversedC h fuel hd = xs.length := by
+  obtain ⟨q1, q2, _⟩ := queries_agree ok hm fuel hf
+  unfold dlistSizeC dlistSizeReversedC
+  rw [q1, q2]
+  exact ⟨countInt_small xs hlen, by rw [countInt_small xs.reverse (by simpa using hlen)]; simp⟩
+
+theorem slist_size_int_precondition (h : SHeap) (head : Nat) (xs : List Nat) (r : SRing h head xs) (fuel : Nat)
+    (hf : xs.length + 1 < fuel) (hlen : xs.length ≤ 2147483647) : slistSizeC h fuel head = xs.length := by
+  unfold slistSizeC; rw [slistToList_ring h head xs r fuel hf]; exact countInt_small xs hlen
+
+/-- beyond it the counter overflows (undefined in C; with wrap-around the result is negative) -/
+theorem size_int_overflow_witness (visited : List Nat) (hl : visited.length = 2147483648) :
+    (countInt visited).toInt = -2147483648 := countInt_overflow visited hl
+
+/-! ### container_of with a side-effecting argument -/
+
+/-- THE NULL-SAFE POP IDIOM `mcast_out_or_null(slist_pop_first(&head), T, member)`.  Contract the
+operation language assumes: the macro evaluates its argument exactly once (it is a function of an
+already evaluated pointer).  Then one idiom = one pop: exactly the first element leaves the list
+and the result is ITS object; on an empty list the result is NULL and nothing changes.  (The
+harness counts the evaluations of the argument on the real macros: ops `spop_entry`, `cpop_entry`,
+`hpop_entry`, `smacros`.) -/
+theorem pop_idiom_single_evaluation (h : SHeap) (head : Nat) (off : Addr) :
+    (∀ x xs, SRing h head (x :: xs) → HAddrOK off x →
+      (slistPopFirstEntry h head off).2 = entryOf off x ∧ (slistPopFirstEntry h head off).2 ≠ 0 ∧
+      SRing (slistPopFirstEntry h head off).1 head xs) ∧
+    (SRing h head [] → slistPopFirstEntry h head off = (h, 0)) := by
+  refine ⟨fun x xs r hx => ?_, fun r => ?_⟩
+  · obtain ⟨e1, e2⟩ := slistPopFirst_ring h head x xs r
+    obtain ⟨m1, m2⟩ := mcastOutOrNull_node off hx
+    simp only [slistPopFirstEntry, e1]
+    exact ⟨m1, m1 ▸ m2, e2⟩
+  · simp [slistPopFirstEntry, slistPopFirst_empty h head r, ptrOf, mcastOutOrNull]
+
+/-- the same idiom on a dlist (`n = head->next; if (n == head) return NULL; dlist_del_init(n)`) and
+on an hlist (`n = head->first; if (!n) return NULL; hlist_del(n)`): one node leaves per call -/
+theorem pop_idiom_dlist_hlist :
+    (∀ {h : Heap} {hd x : Nat} {xs : List Nat} {B : Rings}, RingsOK h ((hd :: x :: xs) :: B) →
+      (dlistPopFirst h hd).2 = some x ∧ RingsOK (dlistPopFirst h hd).1 ([x] :: (hd :: xs) :: B)) ∧
+    (∀ {h : HHeap} {l x : Nat} {xs : List Nat}, HList h l (x :: xs) →
+      (hlistPopFirst h l).2 = some x ∧ HList (hlistPopFirst h l).1 l xs) := by
+  refine ⟨fun {h hd x xs B} ok => ?_, fun {h l x xs} r => ?_⟩
+  · obtain ⟨⟨a', xs', e, ring⟩, _, _⟩ := ok.head
+    injection e with e1 e2; subst e1; subst e2
+    have hn : h.next hd = x := by have := ring.fwd; simp only [Seg] at this; exact this.1
+    have hne : x ≠ hd := by
+      have := ring.nodup; simp only [List.nodup_cons, List.mem_cons, not_or] at this
+      exact fun e => this.1.1 e.symm
+    simp only [dlistPopFirst, hn, hne, if_false]
+    refine ⟨trivial, ?_⟩
+    have okr : RingsOK h ((x :: (xs ++ [hd])) :: B) := ok.rot
+    cases xs with
+    | nil => simpa using okr.delInit
+    | cons y ys =>
+      have h1 := RingsOK.delInit (a := x) (x := y) (xs := ys ++ [hd]) (by simpa using okr)
+      have h2 := RingsOK.rotN (l1 := y :: ys) (b := hd) (l2 := []) (by simpa using swap12 h1)
+      simpa using swap12 h2
+  · have hf : h.first l = some x := by have := r.chain; simp only [HChain] at this; exact this.1
+    simp only [hlistPopFirst, hf]
+    exact ⟨trivial, hlist_del_member (pre := []) (post := xs) (by simpa using r)⟩
+
 end Igris.C01
